@@ -314,6 +314,14 @@ func (c13) Run(c *run.Ctx, phase, idx int) {
 						if len(f) > 3 {
 							mq.ReadPacket(bytes.NewReader(f[:len(f)-1-(g+k)%(len(f)-2)]))
 						}
+						if (g+k)%2 == 0 {
+							// ... and a header the decoder refuses: a fifth length byte,
+							// on streams of their own (an error value shared between
+							// calls and filled in per call races here; round 12, V4-b)
+							if _, err := mq.ReadPacket(bytes.NewReader([]byte{f[0], 0x80 | byte(g), 0x80, 0x80, 0x80 | byte(k), 0x01, 0x00})); err != nil {
+								_ = err.Error()
+							}
+						}
 					case 8:
 						p := bind.New(1 + (g+k)%15)
 						_ = p.String()
